@@ -1,5 +1,6 @@
 import Uquic.Oracle.Frame
 import Uquic.Spec.CloseMon
+import Uquic.Model.Close.IdleSeq
 
 /-! Oracle of the `closeu` driver (C17, unit level): see harness/drivers/closeu/closeu_test.go for the ops. -/
 
@@ -172,6 +173,64 @@ def idleStep (lr fae idl kap kai kps : String) (iw : List String) : StepOut := I
                if st.nextKeepAlive pto = 0 then "ka:off" else if st.keepAliveInterval ≥ pto * 3 / 2 then "ka:interval" else "ka:pto"]
   return { model := model, tags := tags, fails := fails }
 
+/-- the arbitrary non-zero instant standing for the initial `lastPacketReceivedTime` of a `kaseq` op -/
+def base0 : Int := 1000000000000
+
+/-- one event of a `kaseq` op: kind character and the time since the previous event -/
+def parseKaEv (e : String) : Option (Char × Int) :=
+  match e.toList with
+  | k :: rest => if "rasnp".toList.contains k then (String.ofList rest).toInt?.map (fun d => (k, d)) else none
+  | [] => none
+
+/-- `kaseq`: the model replays the events on `Idle.St`; the monitor `keepalive_armed` judges the deadlines the
+    implementation printed against ghost state from the ops only: since the last packet received, was a PING
+    already declared in flight (initial `pingSent`), and was an ack-eliciting packet sent that is NOT a path
+    probe packet (such a packet is retransmitted on PTO until it is acknowledged, so the peer's liveness is
+    being tested anyway)? If neither, and keep-alives are on with the negotiated interval (≤ idleTimeout/2), a
+    keep-alive must be scheduled, strictly before the idle deadline - whatever else was sent, path probes included. -/
+def kaseqStep (idl kap kai kps evs impl : String) : StepOut := Id.run do
+  let pto := intOf (field impl "pto")
+  let evL := (evs.splitOn ",").filterMap parseKaEv
+  if evL.length ≠ (evs.splitOn ",").length then return { model := "bad-op" }
+  let implSeq := (field impl "seq").splitOn ","
+  let mut st : Uquic.Model.Idle.St := {
+    lastPacketReceivedTime := base0, idleTimeout := intOf idl, keepAlivePeriod := intOf kap,
+    keepAliveInterval := intOf kai, keepAlivePingSent := b kps }
+  let mut now := base0
+  let mut out : List String := []
+  let mut fails : List (String × String × String) := []
+  -- ghost
+  let mut pingInFlight := b kps
+  let mut retransmittableInFlight := false
+  let mut sawProbe := false
+  let mut i := 0
+  let preOk := intOf kap ≠ 0 && intOf idl > 0 && intOf kai ≥ 0 && 2 * intOf kai ≤ intOf idl && pto > 0
+  for (k, dt) in evL do
+    now := now + dt
+    match k with
+    | 'r' | 'a' =>
+      st := st.applyEv (.recv now)
+      pingInFlight := false; retransmittableInFlight := false
+    | 's' => st := st.applyEv (.sent true false now); retransmittableInFlight := true
+    | 'n' => st := st.applyEv (.sent false false now)
+    | _ => st := st.applyEv (.sent true true now); sawProbe := true
+    let ka := st.nextKeepAlive pto
+    out := out ++ [s!"{if ka = 0 then "-" else toString (ka - base0)}:{st.nextIdle pto - base0}"]
+    -- monitor on what the implementation printed
+    match (implSeq.getD i "").splitOn ":" with
+    | [ika, iidle] =>
+      if preOk && !pingInFlight && !retransmittableInFlight then
+        if ika == "-" then
+          fails := fails ++ [("keepalive_armed", "-", s!"after event {i} ({k}): keep-alives are on, nothing that is retransmitted is in flight since the last packet received, yet no keep-alive is scheduled (idle deadline {iidle})")]
+        else if intOf ika ≥ intOf iidle then
+          fails := fails ++ [("keepalive_armed", "-", s!"after event {i} ({k}): keep-alive at {ika} not before the idle deadline {iidle}")]
+    | _ => fails := fails ++ [("keepalive_armed", "-", s!"after event {i} ({k}): the real code failed: {implSeq.getD i ""}")]
+    i := i + 1
+  let tags := [if intOf kap = 0 then "kaseq:off" else if preOk then "kaseq:on" else "kaseq:odd-interval"]
+    ++ (if sawProbe then ["kaseq:probe"] else []) ++ (if st.firstAESent ≠ 0 then ["kaseq:ae-in-flight"] else [])
+    ++ (if b kps then ["kaseq:ping-sent"] else []) ++ (if evL.any (fun e => e.1 == 'a') then ["kaseq:rcv-nonae"] else [])
+  return { model := s!"pto={pto} seq={",".intercalate out}", tags := tags, fails := fails }
+
 def step (s : OSt) (op impl : String) : OSt × StepOut :=
   let w := words op
   let iw := words impl
@@ -207,6 +266,7 @@ def step (s : OSt) (op impl : String) : OSt × StepOut :=
     let tags := [if !b hc then "timer:handshake" else if bm ≠ .none then "timer:blocked-idle" else if st.nextKeepAlive pto ≠ 0 then "timer:keepalive" else "timer:idle",
                  if d = base then "timer:base" else "timer:alarm", if fire = 0 then "timer:past" else "timer:future"]
     (s, { model := s!"{pto} {iw.getD 1 "-"} {fire}", tags := tags })
+  | ["kaseq", idl, kap, kai, kps, _rtt, evs] => (s, kaseqStep idl kap kai kps evs impl)
   | "close" :: _ => (s, closeStep w impl)
   | ["closedconn", kind, n] =>
     let si : StandIn := if kind == "local" then .closedLocal 0 else .closedRemote
